@@ -187,9 +187,8 @@ Qed.
 Definition c07_obs (g : tgraph) (t draw : Z) (rel canc : list Z) (after : list (Z * Z)) : Prop :=
   exists k, nth_z (tg_children g t) draw = Some k /\ rel = [k] /\ 0 < tg_prob g k /\
   (forall u, In u (tg_children g t) -> u <> k -> forall d, branch g u d -> state_after after d = cancelled_value) /\
-  (forall j, In j (tg_nodes g) -> tg_terminal g j = true -> ~ (In j (tg_children g t) /\ j <> k) ->
-             tg_state g j <> TS_CANCELLED ->
-             (exists p, In p (tg_parents g j) /\ state_after after p <> cancelled_value) ->
+  (forall j, In j (tg_nodes g) -> tg_terminal g j = true -> tg_state g j <> TS_CANCELLED ->
+             (exists p, In p (tg_parents g j) /\ p <> t /\ state_after after p <> cancelled_value) ->
              state_after after j <> cancelled_value) /\
   (forall n, In n (tg_nodes g) ->
      if zmem n canc then state_after after n = cancelled_value /\ tg_state g n <> TS_CANCELLED
@@ -213,12 +212,11 @@ Proof.
     split; [exact Er|]. split; [lia|]. split; [|split].
     + intros u Hu Hne d Hb. specialize (A3 u (proj2 (Hunt u) (conj Hu Hne))). rewrite forallb_forall in A3.
       specialize (A3 d (proj2 (Hbr u d Hu) Hb)). lia.
-    + intros j Hj Htj Hnu Hsj (p & Hp & Hlive). specialize (A4 j Hj).
+    + intros j Hj Htj Hsj (p & Hp & Hpt & Hlive). specialize (A4 j Hj).
       rewrite Htj in A4. cbn [negb orb] in A4.
-      destruct (zmem j untaken) eqn:M; [apply zmem_In, Hunt in M; contradiction|]. cbn [orb] in A4.
       destruct (is_cancelled g j) eqn:Ec; [apply is_cancelled_iff in Ec; contradiction|]. cbn [orb] in A4.
-      assert (Ex : existsb (fun p0 => negb (state_after after p0 =? cancelled_value)) (tg_parents g j) = true).
-      { apply existsb_exists. exists p. split; [exact Hp|]. apply negb_true_iff. lia. }
+      assert (Ex : existsb (fun p0 => negb (p0 =? t) && negb (state_after after p0 =? cancelled_value)) (tg_parents g j) = true).
+      { apply existsb_exists. exists p. split; [exact Hp|]. apply andb_true_iff. split; apply negb_true_iff; lia. }
       rewrite Ex in A4. cbn [negb orb] in A4. apply negb_true_iff in A4. lia.
     + intros n Hn. specialize (A5 n Hn). destruct (zmem n canc).
       * apply andb_true_iff in A5. destruct A5 as [B1 B2]. apply negb_true_iff, is_cancelled_false in B2. split; [lia | exact B2].
@@ -230,28 +228,28 @@ Proof.
     + intros u Hu. apply Hunt in Hu. destruct Hu as [Hu Hne]. apply forallb_forall. intros d Hd.
       apply Z.eqb_eq. apply (E4 u Hu Hne). apply Hbr; assumption.
     + intros j Hj. destruct (tg_terminal g j) eqn:Etj; cbn [negb orb]; [|reflexivity].
-      destruct (zmem j untaken) eqn:M; cbn [orb]; [reflexivity|].
       destruct (is_cancelled g j) eqn:Ec; cbn [orb]; [reflexivity|].
-      destruct (existsb (fun p => negb (state_after after p =? cancelled_value)) (tg_parents g j)) eqn:Ex; cbn [negb orb]; [|reflexivity].
-      apply existsb_exists in Ex. destruct Ex as (p & Hp & Hl). apply negb_true_iff in Hl.
+      destruct (existsb (fun p => negb (p =? t) && negb (state_after after p =? cancelled_value)) (tg_parents g j)) eqn:Ex; cbn [negb orb]; [|reflexivity].
+      apply existsb_exists in Ex. destruct Ex as (p & Hp & Hl). apply andb_true_iff in Hl. destruct Hl as [Hl1 Hl2].
+      apply negb_true_iff in Hl1. apply negb_true_iff in Hl2.
       apply negb_true_iff. apply Z.eqb_neq. apply E5; auto.
-      * intro Hc. apply zmem_not_In in M. apply M. apply Hunt. exact Hc.
       * apply is_cancelled_false. exact Ec.
-      * exists p. split; [exact Hp | lia].
+      * exists p. split; [exact Hp|]. split; lia.
     + intros n Hn. specialize (E6 n Hn). destruct (zmem n canc).
       * destruct E6 as [B1 B2]. apply andb_true_iff. split; [lia | apply negb_true_iff, is_cancelled_false; exact B2].
       * lia.
 Qed.
 
 (* ---------- the monitor accepts the model's own notification ---------- *)
-Lemma choose_loop_evolves' : forall cs k time g acc g' canc,
-  choose_loop cs k time g acc = (g', Ok canc) -> evolves g g'.
+Lemma choose_loop_evolves' : forall t cs k time g acc g' canc,
+  choose_loop t cs k time g acc = (g', Ok canc) -> evolves g g'.
 Proof.
   induction cs as [|c cs IH]; intros k time g acc g' canc H; cbn [choose_loop] in H.
   - inversion H; subst. apply evolves_refl.
   - destruct (c =? k).
     + eapply evolves_trans; [apply set_prob_evolves | eapply IH; eauto].
-    + destruct (tg_cancel g c time) as [g1 [l|e]] eqn:Ec; [|inversion H].
+    + destruct (keeps_join g t c); [eapply IH; eauto|].
+      destruct (tg_cancel g c time) as [g1 [l|e]] eqn:Ec; [|inversion H].
       eapply evolves_trans; [eapply tg_cancel_evolves; eauto | eapply IH; eauto].
 Qed.
 
@@ -264,16 +262,17 @@ Proof.
     apply zmem_not_In in M. exfalso. apply B. unfold tg_state in *. rewrite <- (cp_out _ _ _ P n M). exact A.
 Qed.
 
-Lemma choose_loop_exact : forall cs k time g acc g' canc,
-  choose_loop cs k time g acc = (g', Ok canc) ->
+Lemma choose_loop_exact : forall t cs k time g acc g' canc,
+  choose_loop t cs k time g acc = (g', Ok canc) ->
   forall n, In n canc <-> In n acc \/ (tg_state g' n = TS_CANCELLED /\ tg_state g n <> TS_CANCELLED).
 Proof.
   induction cs as [|c cs IH]; intros k time g acc g' canc H n; cbn [choose_loop] in H.
   - inversion H; subst. tauto.
   - destruct (c =? k).
     + rewrite (IH _ _ _ _ _ _ H n), set_prob_state. tauto.
-    + destruct (tg_cancel g c time) as [g1 [l|e]] eqn:Ec; [|inversion H].
-      pose proof (choose_loop_evolves' _ _ _ _ _ _ _ H) as E2.
+    + destruct (keeps_join g t c); [apply (IH _ _ _ _ _ _ H n)|].
+      destruct (tg_cancel g c time) as [g1 [l|e]] eqn:Ec; [|inversion H].
+      pose proof (choose_loop_evolves' _ _ _ _ _ _ _ _ H) as E2.
       pose proof (tg_cancel_evolves _ _ _ _ _ Ec) as E1.
       rewrite (IH _ _ _ _ _ _ H n), in_app_iff, (tg_cancel_list_exact _ _ _ _ _ Ec n).
       split.
@@ -311,17 +310,16 @@ Proof.
     assert (Hun : In u (tg_nodes g)) by (eapply wf_children; eauto).
     rewrite after_lookup by (eapply (branch_node g u d); eauto).
     apply state_value_cancelled. eapply notify_untaken; eauto.
-  - intros j Hj Htj Hnu Hsj (p & Hp & Hlive).
+  - intros j Hj Htj Hsj (p & Hp & Hpt & Hlive).
     rewrite after_lookup by exact Hj. rewrite after_lookup in Hlive by (eapply parent_node; eauto).
     intro E. apply state_value_cancelled in E.
     assert (Es : tg_state g' j = tg_state g j).
     { eapply notify_join; eauto.
-      - intros u Hu Hnr Euj. subst u. apply Hnu. split; [exact Hu|]. intro Ek. apply Hnr. subst rel. left. congruence.
-      - exists p. split; [exact Hp|]. intro Ep. apply Hlive. apply state_value_cancelled. exact Ep. }
+      exists p. split; [exact Hp|]. split; [exact Hpt|]. intro Ep. apply Hlive. apply state_value_cancelled. exact Ep. }
     congruence.
   - intros n Hn. rewrite after_lookup by exact Hn.
-    pose proof (choose_loop_exact _ _ _ _ _ _ _ Hl n) as Ex.
-    pose proof (choose_loop_evolves' _ _ _ _ _ _ _ Hl) as Ev.
+    pose proof (choose_loop_exact _ _ _ _ _ _ _ _ Hl n) as Ex.
+    pose proof (choose_loop_evolves' _ _ _ _ _ _ _ _ Hl) as Ev.
     destruct (zmem n canc) eqn:M.
     + apply zmem_In in M. apply Ex in M. destruct M as [[]|[A B]].
       split; [apply state_value_cancelled; exact A | exact B].
